@@ -246,7 +246,8 @@ class History:
 
             self.scratch = tempfile.mkdtemp(prefix="verif-files-", dir="/dev/shm" if os.path.isdir("/dev/shm") else None)
             self.disk = FileDisk(self.scratch, desc["file_stores"], touch=desc.get("touch_stores", ()),
-                                 siblings=bool(desc.get("file_siblings")), symlinks=desc.get("file_symlinks", ()))
+                                 siblings=bool(desc.get("file_siblings")), symlinks=desc.get("file_symlinks", ()),
+                                 loops=desc.get("file_symlink_loops", ()))
         else:
             self.disk = Disk()
         self.disk.tickv = float(desc.get("tick", 1.0))
@@ -325,7 +326,14 @@ def _run_op(hist, op, idx, *, tape=None, uberjob_kwargs=None, client_wrap=None, 
         built = hist.last_built    # the same process goes on: the very same Plan / Registry objects are run again
     if built is None:
         shims.install_node_hash(sc.get("salt", 0) + idx)
-        built = build(world)
+        if world.get("bare_build"):
+            # the Plan is built at the bottom of a fresh thread's stack (a script's top level, a small helper): the
+            # symbolic tracebacks of its nodes are complete, not cut at the depth limit
+            from model.build import build_in_bare_thread
+
+            built = build_in_bare_thread(world)
+        else:
+            built = build(world)
     hist.last_built = built
     strategy = ("tape", tape) if tape is not None else tuple(sc["strategy"])
     sim = sched.Sim(
@@ -529,6 +537,11 @@ def apply_op(hist, op, idx, **kw):
                 t2 = t if sd.get("alias") else round(t + hist.disk.tickv, 6)
                 hist.disk.data[sd["feeds"]] = (hist.disk.data[sd["feeds"]][0], t2)
                 hist.disk.last = max(hist.disk.last, t2)
+    elif k == "epoch0":
+        # every stored value and source is dated exactly 1970-01-01T00:00:00Z (a tree unpacked from an archive that
+        # zeroes timestamps): all modified times are equal, so nothing is older than anything - and 0.0 is a time
+        if hist.fresh is None:
+            hist.disk.set_all_mtimes(0.0)
     elif k == "fresh_at":
         # fresh_time := exactly the modified time of one stored value (a tie: that value is not "older than" fresh_time)
         t = hist.disk.mtime(op["store"])
